@@ -103,6 +103,7 @@ type bitEval struct {
 	atomOf func(v ssa.Value) string
 	// condName names a branch condition
 	condName func(v ssa.Value) string
+	depth    int
 }
 
 func constBits(n int64, w int) []abit {
@@ -238,6 +239,26 @@ func (e *bitEval) eval1(v ssa.Value, w int) []abit {
 			return out
 		default:
 			return e.allMixed(w, xs, e.eval(x.Y))
+		}
+	case *ssa.Call:
+		// a helper of this repository that computes the value from the caller's own parameters: evaluate
+		// its single returned value in place (atoms and conditions are named by type and field, not by variable)
+		if callee := x.Call.StaticCallee(); callee != nil && callee.Blocks != nil && callee.Pkg != nil && x.Parent() != nil && callee.Pkg == x.Parent().Pkg && e.depth < 3 {
+			rets := returnsOf(callee)
+			argsAreParams := true
+			for _, a := range x.Call.Args {
+				if _, ok := a.(*ssa.Parameter); !ok {
+					argsAreParams = false
+				}
+			}
+			if len(rets) == 1 && len(rets[0].Results) == 1 && argsAreParams {
+				e.depth++
+				r := e.eval(rets[0].Results[0])
+				e.depth--
+				if len(r) == w {
+					return r
+				}
+			}
 		}
 	case *ssa.Phi:
 		edges := make([][]abit, len(x.Edges))
